@@ -21,6 +21,15 @@ MCNext ==
   \/ H(AcRelease, "AcRelease") \/ H(AcRelDone, "AcRelDone")
   \/ (SysNext /\ UNCHANGED hist)
   \/ (Terminal /\ UNCHANGED mvars)
+MCStep ==     \* MCNext without the stuttering at the end: a simulated behaviour ends in its terminal state
+  \/ H(RqRequest, "RqRequest") \/ H(RqAssocInd, "RqAssocInd") \/ H(RqSend, "RqSend") \/ H(RqWait, "RqWait")
+  \/ H(RqRecv, "RqRecv") \/ H(RqExitNormal, "RqExitNormal") \/ H(RqRelDone, "RqRelDone") \/ H(RqExitError, "RqExitError")
+  \/ (\E r \in Reasons : H(RqAbort(r), "RqAbort") \/ H(AcAbort(r), "AcAbort"))
+  \/ (\E t \in Triples : H(AcRefuse(t), "AcRefuse"))
+  \/ H(AcAccept, "AcAccept") \/ H(AcRecv, "AcRecv") \/ H(AcRespond, "AcRespond") \/ H(AcReturn, "AcReturn")
+  \/ H(AcRelease, "AcRelease") \/ H(AcRelDone, "AcRelDone")
+  \/ (SysNext /\ UNCHANGED hist)
+MCSimSpec == MCInit /\ [][MCStep]_mvars
 MCSpec == MCInit /\ [][MCNext]_mvars /\ WF_mvars(MCNext)
 
 PrintScripts == Terminal => PrintT("@@" \o ToJson([script |-> hist, acted |-> acted, r2a |-> wrote["R"], a2r |-> wrote["A"],
